@@ -172,4 +172,4 @@ FOLD_OPERANDS = [  # (value, (signed, width)) : values around the width boundari
     (2, (False, 64)), (0xFFFFFFFFFFFFFFFF, (False, 64)),
     (-1, (False, 32)),  # what the unary folder leaves for -1U : value not yet reduced, type unsigned
 ]
-FOLD_OPERANDS_QUICK = [FOLD_OPERANDS[i] for i in (1, 2, 4, 5, 7, 8, 12, 16)]
+FOLD_OPERANDS_QUICK = [FOLD_OPERANDS[i] for i in (1, 2, 4, 5, 6, 7, 8, 12, 16)]
